@@ -128,3 +128,15 @@ Proof.
   - destruct (Hnf eq_refl) as [-> _]. rewrite app_nil_r in Hb. subst t. rewrite Ht. cbn [app take_line]. rewrite N.eqb_refl.
     cbn [rev app]. f_equal. apply IH. exact Hr.
 Qed.
+
+(** ---------- the number of lines ---------- *)
+Fixpoint count_lf (b : bytes) : nat := match b with [] => 0%nat | x :: r => if x =? LF then S (count_lf r) else count_lf r end.
+Lemma chunks_acc_length b : forall cur, (length (chunks_acc cur b) <= count_lf b + 1)%nat.
+Proof.
+  induction b as [|x r IH]; intros cur; cbn [chunks_acc count_lf].
+  - destruct cur; cbn; lia.
+  - destruct (x =? LF); cbn [length]; [specialize (IH []); lia|apply IH].
+Qed.
+(** every line iterator over a byte string yields at most one item per input line (LF count + 1) *)
+Theorem raw_reads_length b : (length (raw_reads (src_of_bytes b)) <= count_lf b + 1)%nat.
+Proof. rewrite raw_reads_chunks, map_length. apply chunks_acc_length. Qed.
